@@ -65,6 +65,13 @@ def gen_problem(rng, t):
         for b in p.bdryprops:
             if b["type"] == 0 and rng.random() < 0.3:
                 b["Phi"] = rng.choice([0.0, 60.0])
+    if not harmonic and rng.random() < 0.3:
+        # prescribed potentials A0 + A1 r + A2 theta ([Coordinates] = polar, settable through the file only)
+        p.coords = "polar"
+        for b in p.bdryprops:
+            if b["type"] == 0:
+                b["A_1"] = rng.choice([1e-3, -5e-4])
+                b["A_2"] = rng.choice([0.0, 1e-5])
     p.harmonic = harmonic
     return p
 
